@@ -55,6 +55,9 @@ class Hooks:
     def on_loop_entry(self, fn, head, states):
         pass
 
+    def on_step_backs(self, fn, head, backs):
+        pass
+
     def on_loop(self, fn, head, info):
         self.log.append(('loop', fn.name, head, info))
 
@@ -208,6 +211,9 @@ class Interp:
                 if not res:
                     dead = True
                     break
+                if len(res) > 1 and ins.op == 'load' and self.ctx.limits.get('sig'):
+                    for k_, s_ in enumerate(res):
+                        self._sig(s_, fn, blk, 'alt%d' % k_, ins.idx)
                 for s2 in res[1:]:
                     work.append((s2, i))
                 st = res[0]
@@ -257,13 +263,20 @@ class Interp:
             if cc is not None:
                 self.flow_to(fn, blk.name, tg[0] if cc else tg[1], st, pending, loopctx)
                 return
+            sig = self.ctx.limits.get('sig')
+            if sig:
+                st.tags.pop('_piece', None)
             s2 = st.copy()
             for s in self.ops.assume(st, c, True):
                 s.decide((fn.name, ins.line, 'true'))
+                if sig:
+                    self._sig(s, fn, blk, 'T')
                 self.flow_to(fn, blk.name, tg[0], s, pending, loopctx)
             c2 = self.ops.operand(s2, ins.ops[0][0], ins.ops[0][1])
             for s in self.ops.assume(s2, c2, False):
                 s.decide((fn.name, ins.line, 'false'))
+                if sig:
+                    self._sig(s, fn, blk, 'F')
                 self.flow_to(fn, blk.name, tg[1], s, pending, loopctx)
             return
         if op == 'switch':
@@ -287,6 +300,8 @@ class Interp:
                 outs = self.ops.assume_lin(s, 'eq', v.a, Aff(k))
                 for s1 in outs:
                     s1.decide((fn.name, ins.line, 'case %d' % k))
+                    if self.ctx.limits.get('sig'):
+                        self._sig(s1, fn, blk, 'c%d' % k)
                     self.flow_to(fn, blk.name, lb, s1, pending, loopctx)
                 r = self.ops.assume_lin(rest, 'ne', v.a, Aff(k))
                 if not r:
@@ -295,6 +310,8 @@ class Interp:
                 rest = r[0]
             if rest is not None:
                 rest.decide((fn.name, ins.line, 'default'))
+                if self.ctx.limits.get('sig'):
+                    self._sig(rest, fn, blk, 'dflt')
                 self.flow_to(fn, blk.name, ins.attrs['default'], rest, pending, loopctx)
             return
         if op == 'ret':
@@ -306,6 +323,11 @@ class Interp:
         if op == 'unreachable':
             return
         raise AnalysisBroken('unmodelled terminator %s in %s' % (op, fn.name))
+
+    def _sig(self, st, fn, blk, d, idx=None):
+        """decision signature of a path: (call-site chain, function, block, direction) per undecided branch taken"""
+        chain = tuple(fr.callsite.loc() if fr.callsite is not None else '' for fr in st.frames[1:])
+        st.tags['sig'] = st.tags.get('sig', ()) + ((chain, fn.name, blk.name if idx is None else '%s#%d' % (blk.name, idx), (d, st.tags.pop('_piece', None))),)
 
     # ---- instructions ------------------------------------------------------------------------------
     def exec_instr(self, st, ins):
@@ -375,13 +397,20 @@ class Interp:
             if cc is not None:
                 st.setv(ins.res, a if cc else b)
                 return None
+            sig = self.ctx.limits.get('sig')
+            if sig:
+                st.tags.pop('_piece', None)
             s2 = st.copy()
             out = []
             for s in ops.assume(st, c, True):
                 s.setv(ins.res, a)
+                if sig:
+                    self._sig(s, ins.fn, ins.block if hasattr(ins.block, 'name') else ins.fn.blocks[ins.block], 'T', ins.idx)
                 out.append(s)
             for s in ops.assume(s2, ops.operand(s2, ins.ops[0][0], ins.ops[0][1]), False):
                 s.setv(ins.res, b)
+                if sig:
+                    self._sig(s, ins.fn, ins.block if hasattr(ins.block, 'name') else ins.fn.blocks[ins.block], 'F', ins.idx)
                 out.append(s)
             return out
         if op == 'call':
@@ -431,6 +460,8 @@ class Interp:
         body_order = [b for b in fi['rpo'] if b in lp['body']]
         log = self.hooks.log
         self.hooks.on_loop_entry(fn, head, entry)
+        if fn.name in self.ctx.limits.get('step', ()):
+            return self.run_loop_step(fn, fi, lp, entry, rets)
         if fn.name in self.ctx.limits.get('unroll', ()):
             return self.run_loop_unrolled(fn, fi, lp, entry, rets)
         heads = self.group_and_join(fn, lp, entry, 'entry')
@@ -528,6 +559,23 @@ class Interp:
                     print('   [dbg] head key=%x cell38=%r results-cached=%s last=%r' % (hash(self.group_key(h, fn, lp)) & 0xffffff, c, id(h) in results, h.pathlist()[-1][2][:60]))
                 for u in uncovered[:3]:
                     print('   [dbg] unc  key=%x cell38=%r' % (hash(self.group_key(u, fn, lp)) & 0xffffff, u.mem.get('STATE', {}).get(((38, ()), 1))))
+
+    def run_loop_step(self, fn, fi, lp, entry, rets):
+        """exactly one iteration of the loop from each entry state; the back-edge states are handed to the hooks
+        (on_step_backs) instead of being iterated to a fixpoint (opt-in per function: step-table extraction)"""
+        head = lp['head']
+        body_order = [b for b in fi['rpo'] if b in lp['body']]
+        outs = {}
+        allbacks = []
+        for h in entry:
+            backs = []
+            o = {}
+            self.process(fn, fi, body_order, {head: [h]}, rets, (lp, backs, o))
+            for tgt, sts in o.items():
+                outs.setdefault(tgt, []).extend(sts)
+            allbacks.extend(backs)
+        self.hooks.on_step_backs(fn, head, allbacks)
+        return outs
 
     def run_loop_unrolled(self, fn, fi, lp, entry, rets):
         """loops with a constant trip count, analysed iteration by iteration without joining (opt-in per function)"""
